@@ -13,7 +13,7 @@ RULE = ("call sequences up to length 40 over new / parse_formula / copy / get / 
         "strings, every sequence in a child process (an abort is an observation); after each call the return code, the "
         "out-pointer, and mass + get on six probe keys of EVERY live handle are compared with the model built from the "
         "Rust-API models; all handles freed at the end; class = (set of functions called, error codes seen, length bucket)")
-MODULES = ["Props.C17", "Props.C17Handles"]
+MODULES = ["Props.C17", "Props.C17Handles", "Inst.C17Ex"]
 # arguments longer than any plausible fixed buffer (4096, 8192, 65536): their meaning must not depend on their length
 LONG_FORMULA = [b"C" * 5000, b"C" * 4095 + b"He", b"(" + b"CH" * 2100 + b")2", b"C" * 8191 + b"Cl2"]
 LONG_SPEC = [b"C[" + b"0" * 4200 + b"13]", b"C" + b"l" * 0 + b"[" + b"0" * 8190 + b"12]", b"C" * 4097]
